@@ -10,17 +10,29 @@ Proof. intros H. unfold inj. change 0 with (inject_Z 0). rewrite <- Zlt_Qlt. lia
 Lemma inj_neq0 n : (0 < n)%nat -> ~ inj n == 0.
 Proof. intros H E. pose proof (inj_pos n H). lra. Qed.
 
+Lemma qaddf_ok x y : qaddf x y == x + y.
+Proof. destruct x as [a b], y as [c d]. unfold qaddf, Qplus, Qeq; cbn [Qnum Qden]. rewrite ?Pos2Z.inj_mul. ring. Qed.
+Lemma qsubf_ok x y : qsubf x y == x - y.
+Proof. destruct x as [a b], y as [c d]. unfold qsubf, Qminus, Qplus, Qopp, Qeq; cbn [Qnum Qden]. rewrite ?Pos2Z.inj_mul. ring. Qed.
+Lemma caddf_cadd a b : caddf a b =c= cadd a b.
+Proof. split; unfold caddf, cadd, re, im; cbn [fst snd]; apply qaddf_ok. Qed.
+Lemma cmulf_cmul a b : cmulf a b =c= cmul a b.
+Proof. split; unfold cmulf, cmul, re, im; cbn [fst snd]; [apply qsubf_ok|apply qaddf_ok]. Qed.
+Global Instance re_proper : Proper (ceq ==> Qeq) re.
+Proof. intros a b [H _]; exact H. Qed.
+Global Instance im_proper : Proper (ceq ==> Qeq) im.
+Proof. intros a b [_ H]; exact H. Qed.
 Lemma sumr_sumn f n : sumr f n == sumn f n.
-Proof. induction n; [reflexivity|]. cbn [sumr sumn]. rewrite Qred_correct, IHn. reflexivity. Qed.
+Proof. induction n; [reflexivity|]. cbn [sumr sumn]. rewrite Qred_correct, qaddf_ok, IHn. reflexivity. Qed.
 Lemma credc_id z : credc z =c= z.
 Proof. split; unfold credc, re, im; cbn [fst snd]; apply Qred_correct. Qed.
 Lemma csumr_csumn f n : csumr f n =c= csumn f n.
-Proof. induction n; [reflexivity|]. cbn [csumr csumn]. rewrite credc_id, IHn. reflexivity. Qed.
+Proof. induction n; [reflexivity|]. cbn [csumr csumn]. rewrite credc_id, caddf_cadd, IHn. reflexivity. Qed.
 Lemma auto_denom_val K w f : auto_denom K w f == sumn (fun k => w k f * w k f) K.
 Proof. apply sumr_sumn. Qed.
 
 Lemma sq_cnorm2 z : sq z == cnorm2 z.
-Proof. unfold sq, cnorm2, cmul, cconj, re, im; simpl. ring. Qed.
+Proof. unfold sq. rewrite cmulf_cmul. unfold cnorm2, cmul, cconj, re, im; simpl. ring. Qed.
 Lemma sq_nonneg_c z : 0 <= sq z.
 Proof. rewrite sq_cnorm2. apply cnorm2_nonneg. Qed.
 Global Instance sq_proper : Proper (ceq ==> Qeq) sq.
@@ -234,13 +246,8 @@ Lemma ofQ_proper_ : forall a b, a == b -> ofQ a =c= ofQ b.
 Proof. intros a b H; split; simpl; [exact H|reflexivity]. Qed.
 Global Instance ofQ_proper : Proper (Qeq ==> ceq) ofQ.
 Proof. exact ofQ_proper_. Qed.
-Global Instance re_proper : Proper (ceq ==> Qeq) re.
-Proof. intros a b [H _]; exact H. Qed.
-Global Instance im_proper : Proper (ceq ==> Qeq) im.
-Proof. intros a b [_ H]; exact H. Qed.
-
-Lemma auto_term (w : Q) (y : C) : cmul (cscale w y) (cconj (cscale w y)) =c= ofQ (w * w * sq y).
-Proof. destruct y as [a b]. split; unfold sq, cmul, cscale, cconj, ofQ, re, im; simpl; ring. Qed.
+Lemma auto_term (w : Q) (y : C) : cmulf (cscale w y) (cconj (cscale w y)) =c= ofQ (w * w * sq y).
+Proof. rewrite cmulf_cmul, sq_cnorm2. destruct y as [a b]. split; unfold cnorm2, cmul, cscale, cconj, ofQ, re, im; simpl; ring. Qed.
 
 Section MT.
   Variables (sd : sides) (N K : nat).
